@@ -23,7 +23,7 @@ and many options to consider when collecting.
 
 import abc
 import types
-from collections import deque
+from collections import deque, OrderedDict
 from typing import List
 
 from deep import logging
@@ -73,6 +73,8 @@ def builtin_base(variable_type: type) -> type:
     A derived class is read through this type (dict.keys(value), list.__iter__(value)): looking at a value must not
     run the methods the application has overridden.
     """
+    if issubclass(variable_type, OrderedDict):
+        return OrderedDict      # (it keeps an order of its own: move_to_end)
     if issubclass(variable_type, dict):
         return dict
     return next(base for base in __LIST_LIKE if issubclass(variable_type, base))
@@ -412,7 +414,7 @@ def process_dict_breadth_first(parent_node, type_name, value, func=lambda x, y: 
     # (read through dict itself: a class derived from dict can have its own keys / __contains__ / __getitem__)
     return [Node(value=NodeValue(func(type_name, safe_str(key)), dict.__getitem__(value, key), safe_str(key)),
                  parent=parent_node)
-            for key in list(dict.keys(value)) if dict.__contains__(value, key)]
+            for key in list(builtin_base(type(value)).keys(value)) if dict.__contains__(value, key)]
 
 
 def process_slots_breadth_first(parent_node, variable_type: type, value) -> List[Node]:
